@@ -251,6 +251,16 @@ fn step(w: &[&str], arena: &Arena) -> (String, Vec<String>) {
         ["tonumber", s] => {
             let Some(s) = payload(s) else { return bad_utf8() };
             let x = StringBuiltin::to_number(&s);
+            // oracle (no model): the IEEE value of the text as std parses it, bit for bit (sign of zero
+            // included); text std rejects must give NaN
+            match s.parse::<f64>() {
+                Ok(want) if !want.is_nan() => {
+                    if x.to_bits() != want.to_bits() {
+                        fails.push(format!("to_number: got bits {:016x}, the IEEE value of the text is {:016x}", x.to_bits(), want.to_bits()));
+                    }
+                }
+                _ => {}
+            }
             (if x.is_nan() { "nan".to_string() } else { format!("{:016x}", x.to_bits()) }, fails)
         }
         ["hang"] => loop {
